@@ -287,6 +287,23 @@ def rule_option_normalisation(ctx, entry_suffixes, cfg='prod-all', exclude=()):
                      body.span, fact={'uses': uses, 'violations': viol[:5]}, expected='unwrap_or(<empty>) on every path', nontrivial=uses > 0)
 
 
+def rule_option_normalisation_all(ctx, cfg='prod-all', scope=('bbsplus::', 'utils::util::bbsplus_utils', 'utils::message::bbsplus_message'),
+                                  exclude_params=('key_dst', 'secret_prover_blind'), min_params=50):
+    """RF-A for every function of the BBS layer, not only the public entry points: an optional octet-string parameter (header, ph, api_id,
+    key_info, message lists ...) is only ever defaulted to the empty string - an internal helper that substitutes another default makes an
+    absent value differ from an empty one for every caller.  key_dst (documented non-empty default) and the blind factor (normalised at the
+    entry points, see RF-A there) are tabled exclusions."""
+    prog = ctx.prog(cfg)
+    fns = [p for p, b in sorted(prog.bodies.items()) if p.startswith(scope) and not b.from_expansion and b.kind != 'Closure']
+    n = 0
+    for ob in rule_option_normalisation(ctx, fns, cfg=cfg):
+        if ob.key.rsplit('#opt:', 1)[1] in exclude_params:
+            continue
+        n += 1
+        yield ob
+    yield Ob('RF-A', 'crate#option-parameter-census', n >= min_params, 'optional octet-string parameters checked', '', fact=n, expected='>= %d' % min_params, nontrivial=False)
+
+
 # ------------------------------------------------------------------ RF-S shared-state census
 INTERIOR = ('Cell<', 'RefCell<', 'Mutex<', 'RwLock<', 'Atomic', 'OnceCell<', 'OnceLock<', 'LazyLock<', 'LazyCell<', 'UnsafeCell<', 'Lazy<')
 
@@ -366,3 +383,110 @@ def rule_argument_roles(ctx, cfg='prod-all', scope=('bbsplus::', 'utils::util::b
                          'argument for `%s` of %s comes from the caller\'s own `%s`' % (role, tgt.split('::')[-1], role), '%s L%s' % (b.file(), t['line']),
                          fact={'sources': srcs}, expected=exp)
     yield Ob('RF-B', 'crate#argument-role-census', n >= min_sites, 'pass-through arguments checked', '', fact=n, expected='>= %d' % min_sites, nontrivial=False)
+
+
+# ------------------------------------------------------------------ message lists handed down whole
+LIST_ROLES = ('messages', 'committed_messages')
+LIST_SINKS = ('messages_to_scalar', 'prepare_parameters', 'commit')
+# calls whose result is the same list as their first argument (same elements, same order, same count)
+IDENTITY_CALLS = ALIAS_IDENT = (
+    'std::option::Option::<T>::unwrap_or', 'std::option::Option::<T>::unwrap_or_default', 'std::option::Option::<T>::unwrap',
+    'std::option::Option::<T>::expect', 'std::option::Option::<T>::as_ref', 'std::option::Option::<T>::as_deref', 'std::option::Option::<T>::copied',
+    'std::option::Option::<T>::cloned', 'std::option::Option::<&T>::copied', 'std::option::Option::<&T>::cloned',
+    'std::ops::Deref::deref', 'std::convert::AsRef::as_ref', 'std::borrow::Borrow::borrow', 'std::vec::Vec::<T, A>::as_slice',
+    'std::slice::<impl [T]>::to_vec', 'std::clone::Clone::clone', 'std::borrow::ToOwned::to_owned', 'std::convert::Into::into', 'std::convert::From::from',
+)
+
+
+def _trace_identity(fd, body, op, seen=None):
+    """follow an operand backwards through identity-preserving steps.  Returns (param_local | None, chain_locals, reason)."""
+    chain = []
+    cur = op
+    for _ in range(64):
+        if cur['k'] == 'const':
+            return None, chain, 'constant'
+        if cur['k'] not in ('copy', 'move'):
+            return None, chain, 'not a place'
+        pl = cur['pl']
+        l = pl['l']
+        projs = [p for p in pl.get('p', []) if p['k'] not in ('deref', 'downcast')]
+        # (x as Some).0 is the payload of an Option: identity; any other field/index is a part, not the whole
+        if any(p['k'] != 'field' or not str(p.get('adt', '')).startswith(('std::option::Option', 'core::option::Option')) for p in projs):
+            return None, chain, 'a part of a value (projection) is passed'
+        chain.append(l)
+        if fd.is_param(l):
+            return l, chain, None
+        ds = [d for d in fd.defs.get(l, []) if d[0] != 'setdiscr']
+        if len(ds) != 1:
+            return None, chain, 'value is assigned on several paths / rebuilt'
+        kind, bi, x = ds[0]
+        if kind == 'assign':
+            if x['dst'].get('p'):
+                return None, chain, 'value is assembled field by field'
+            rv = x['rv']
+            if rv['k'] == 'use':
+                cur = rv['op']
+            elif rv['k'] in ('ref', 'rawptr'):
+                cur = {'k': 'copy', 'pl': rv['pl']}
+            elif rv['k'] == 'cast':
+                cur = rv['op']
+            elif rv['k'] == 'agg' and rv.get('name') in ('std::option::Option', 'core::option::Option') and rv.get('variant') == 'Some' and len(rv.get('ops', [])) == 1:
+                cur = rv['ops'][0]
+            else:
+                return None, chain, 'value is computed (%s)' % rv['k']
+        else:
+            cal = x.get('callee') or ''
+            if cal in IDENTITY_CALLS and x['args']:
+                cur = x['args'][0]
+            else:
+                return None, chain, 'value is produced by %s' % (cal.split('::')[-1] or 'a call')
+    return None, chain, 'chain too long'
+
+
+def _mut_borrowed(fd, body, locs):
+    """locals of the chain that are mutably borrowed (or passed by &mut) anywhere in the body"""
+    out = []
+    for bi, s in body.stmts():
+        if s['k'] == 'assign' and s['rv']['k'] in ('ref', 'rawptr') and s['rv'].get('mut') and s['rv']['pl']['l'] in locs:
+            out.append((s['rv']['pl']['l'], s.get('line')))
+    return out
+
+
+def rule_list_integrity(ctx, cfg='prod-all', scope=('bbsplus::', 'utils::util::bbsplus_utils'), only_fns=None, min_sites=12):
+    """the octet-string message lists a caller gives to an API-layer function reach the message-to-scalar mapping whole: same elements,
+    same order, same count.  The argument in a `messages` / `committed_messages` role of messages_to_scalar / prepare_parameters / commit
+    must be the caller's own parameter, reached only through identity steps (Option defaulting, borrows, plain copies), and no copy on the
+    way may be mutably borrowed (sort / dedup / retain / truncate ...).  A verifier that drops, merges or reorders disclosed messages
+    checks a different statement than the one it was given; a signer that does so signs a different vector."""
+    prog, eng = ctx.prog(cfg), ctx.eng(cfg)
+    n = 0
+    for p, b in sorted(prog.bodies.items()):
+        if b.from_expansion or not p.startswith(scope) or b.kind == 'Closure':
+            continue
+        if only_fns and not any(p.endswith(x) for x in only_fns):
+            continue
+        fd = eng.fndep(p)
+        for bi, t in b.calls():
+            tgt = local_target(eng, t)
+            if tgt is None or tgt not in prog.bodies or tgt.split('::')[-1] not in LIST_SINKS:
+                continue
+            cb = prog.bodies[tgt]
+            for k, a in enumerate(t['args']):
+                if k + 1 > cb.arg_count or cb.local_name(k + 1) not in LIST_ROLES:
+                    continue
+                role = cb.local_name(k + 1)
+                if 'u8' not in cb.locals[k + 1]['ty']:
+                    continue          # scalar lists are derived values, not the caller's octet strings
+                n += 1
+                key = '%s#list:%s(%s)@%d' % (p, tgt.split('::')[-1], role, sum(1 for bj, tj in b.calls() if bj < bi and local_target(eng, tj) == tgt))
+                if a['k'] == 'const':
+                    yield Ob('RF-B', key, True, 'message list argument is a constant (absent list)', '%s L%s' % (b.file(), t['line']), fact='const', expected='param or const')
+                    continue
+                par, chain, why = _trace_identity(fd, b, a)
+                muts = _mut_borrowed(fd, b, set(chain)) if par is not None else []
+                ok = par is not None and not muts
+                yield Ob('RF-B', key, ok, 'message list handed to %s is the caller\'s own list, whole and unaltered' % tgt.split('::')[-1], '%s L%s' % (b.file(), t['line']),
+                         fact={'param': b.local_name(par) if par is not None else None, 'why': why, 'mutably_borrowed': [(b.local_name(l) or '_%d' % l, ln) for l, ln in muts]},
+                         expected='identity chain to a parameter; no &mut borrow on the way')
+    if not only_fns:
+        yield Ob('RF-B', 'crate#message-list-census', n >= min_sites, 'message-list hand-over sites checked', '', fact=n, expected='>= %d' % min_sites, nontrivial=False)
